@@ -13,7 +13,8 @@ ALGS = ["SSIcov", "SSIdat", "SSIcov_MS", "SSIdat_MS", "pLSCF", "pLSCF_MS"]
 REQUIRED_MONITORS = [f"sound+complete@{a}.run" for a in ALGS] + [f"one-NaN-pattern@{a}.run" for a in ALGS] + ["conj-injection@run", "HC_conj(function)", "sound+complete@SSIcov.run(calc_unc)"]
 CRIT = ["conj", "xi", "mpc", "mpd", "cov"]
 ALL_STATES = [f"fails {c} alone" for c in CRIT] + ["fails several", "passes all", "conj=False keeps orphan", "ordmin > 0"]
-REQUIRED_STATES = ["same instance re-run with relaxed criteria", "ordmin > 0", "fails xi alone", "fails mpc alone", "fails mpd alone", "fails cov alone", "fails conj alone", "passes all", "conj=False keeps orphan"]
+REQUIRED_STATES = ["same instance re-run with relaxed criteria", "ordmin > 0", "fails xi alone", "fails mpc alone", "fails mpd alone", "fails cov alone", "fails conj alone", "passes all", "conj=False keeps orphan",
+                   "relaxed mpd_lim in [0.5, 1.2] with mpc_lim = 0", "mpd_lim = 0", "mpc_lim = 1"]
 RULE = ("noisy responses of systems with complex non-proportional shapes, high model orders (many spurious, negatively damped and real poles); a first "
         "run observes the indicator distributions of the unfiltered solution (captured at the return of SSI_poles / pLSCF_poles in the same "
         "execution), later runs put xi_max / mpc_lim / mpd_lim / cov_max at their 30..70 % quantiles; every cell of every run is judged for "
@@ -299,6 +300,24 @@ def run_adaptive(ctx, case, rng, calc_unc=False):
     # the unfiltered solution depends on data and identification settings only, both unchanged: if the re-run does not pass the
     # probe again (an implementation may cache the identification) the solution captured by the previous run is the reference
     judge_run(ctx, alg, unf3 if unf3 else unf2, a2.result, hc3, not alg.startswith("pLSCF"), suffix)
+    # thresholds at the ends of their ranges / strongly relaxed (each criterion then decides alone over the whole unfiltered solution)
+    u = int(rng.integers(0, 4))
+    if u == 0:
+        hc4 = dict(hc2, conj=False, xi_max=1.0, mpc_lim=0.0, mpd_lim=float(rng.uniform(0.5, 1.2)))
+        ctx.state("relaxed mpd_lim in [0.5, 1.2] with mpc_lim = 0")
+    elif u == 1:
+        hc4 = dict(hc2, conj=False, xi_max=1.0, mpc_lim=0, mpd_lim=(0 if rng.random() < 0.5 else 0.0))
+        ctx.state("mpd_lim = 0")
+    elif u == 2:
+        hc4 = dict(hc2, conj=False, xi_max=1.0, mpc_lim=1.0, mpd_lim=np.pi / 2)
+        ctx.state("mpc_lim = 1")
+    else:
+        hc4 = dict(hc2, conj=True, xi_max=float(rng.choice([1e-6, 1.0])), mpc_lim=0.0, mpd_lim=np.pi / 2)
+        ctx.state("only conj / xi_max active")
+    s4, a4 = build(alg, fs, data, ref, datasets, hc4, rng, extra)
+    with capture(alg) as unf4:
+        s4.run_all()
+    judge_run(ctx, alg, unf4, a4.result, hc4, not alg.startswith("pLSCF"), suffix)
     need = [c for c in ("xi", "mpc", "mpd") + (("cov",) if calc_unc else ())]
     if all(alone.get(c, 0) > 0 for c in need):
         ctx.nontrivial((alg, calc_unc, tuple(round(v, 5) if isinstance(v, float) else v for v in hc2.values())))
